@@ -2711,3 +2711,911 @@ def replay_alias(case, ctx):
 SHARD_SOURCES.append(alias_shards)
 RUNNERS["alias"] = run_alias
 REPLAYERS["alias"] = replay_alias
+
+
+# ---------------------------------------------------------------------------
+# size: straddle every capacity / width switch (audit dimension 1, 5, 6)
+# ---------------------------------------------------------------------------
+GROW = (1, 2, 3, 4, 5, 7, 8, 9, 15, 16, 17, 31, 32, 33, 63, 64, 65)
+MANY = (1, 2, 9, 10, 11, 99, 100, 101, 255, 256, 257)
+
+
+def size_cfg(tier):
+    q = tier == "quick"
+    return {
+        "growth": {"r": GROW + (255, 256, 257), "q": GROW, "kinds": ["K", "B3"],
+                   "note": "reference a^(r+1) (r entries of one k-mer) x query a^(q+1) and (ab)^q: r*q rows straddle every "
+                           "doubling of the result buffer (initial capacity 1) up to 4096 and 255/256/257 entries per k-mer"},
+        "entries_per_kmer": [255, 256, 257] + ([] if q else [65535, 65536, 65537]),
+        "n_references": list(MANY) + ([] if q else [65535, 65536, 65537]),
+        "n_buckets": list(range(1, 21)) + [31, 32, 33],
+        "default_bucket_lengths": list(range(3, 45)),
+        "big_k": [[4, 15], [4, 16], [4, 17], [2, 31], [2, 32], [2, 33], [2, 62], [2, 63], [2, 64], [24, 7], [24, 8]],
+        "alphabet_sizes": [255, 256, 257],
+        "long_windows": [2, 3, 7, 8, 9, 63, 64, 65, 255, 256, 257],
+        "long_sync": [[9, 3], [12, 4]],
+    }
+
+
+def size_shards(tier):
+    out = [{"kind": "size", "sub": "growth", "tk": tk, "rule": r} for tk in ("K", "B3") for r in (0, 1)]
+    out += [{"kind": "size", "sub": s} for s in ("entries", "manyrefs", "buckets", "defbuckets", "bigk", "bigalph", "longsel")]
+    return out
+
+
+def sparse_content(ctx, t, name, req, site, icls, case, absent=()):
+    """content check for tables whose k-mer alphabet is too large to walk: every present code, listed absent codes"""
+    want = {}
+    for c, a, b in req:
+        want.setdefault(c, []).append((a, b))
+    present = sorted(want)
+
+    def bad(view, exp, got):
+        ctx.violation("%s.%s|%s:wrong_value|%s" % (name, site, view, icls), "%s of a table with a large k-mer alphabet" % view,
+                      case, expected=exp, observed=got)
+        return False
+    gk = np.asarray(t.get_kmers()).tolist()
+    if gk != present:
+        return bad("get_kmers", present[:20], gk[:20])
+    cnt = np.asarray(t.count(np.array(present + list(absent), dtype=np.int64))).tolist()
+    if cnt != [len(want[c]) for c in present] + [0] * len(absent):
+        return bad("count", [len(want[c]) for c in present][:20], cnt[:20])
+    for c in present:
+        r = rows(np.asarray(t[c]), 2)
+        if r is None or sorted(r) != sorted(want[c]):
+            return bad("getitem", sorted(want[c])[:20], (r or [])[:20])
+    for c in absent:
+        if len(t[c]):
+            return bad("getitem", [], np.asarray(t[c]).tolist()[:20])
+    return True
+
+
+def run_size(shard, ctx):
+    import biotite.sequence as seq
+    import biotite.sequence.align as align
+
+    cfg = size_cfg(ctx.tier)
+    sub = shard["sub"]
+    base = {"kind": "size", "sub": sub}
+    if sub == "growth":
+        tk, use_rule = shard["tk"], shard["rule"]
+        env = Env(2, ctx.seed, 2, None)
+        rule, M = make_rule(env, "ident", 0, 0)
+        ss = sim_sets(M, 2, 2, 0)
+        qcodes = [(0,) * (q + 1) for q in cfg["growth"]["q"]] + [(0, 1) * q for q in cfg["growth"]["q"] if q > 1]
+        qs = [prep_query(env, tk, c, ()) for c in qcodes]
+        for r in cfg["growth"]["r"]:
+            rc = (0,) * (r + 1) + (1, 0)
+            case = dict(base, tk=tk, rule=use_rule, r=r)
+            if not ctx.journal(case):
+                continue
+            t, obs = build_ref(ctx, env, tk, rc, (), "continuous+many_rows", lambda: case)
+            if obs is None:
+                continue
+            for q in qs:
+                c2 = dict(case, q=list(q.codes))
+                if use_rule:
+                    sim_ops(ctx, env, tk, t, obs, q, rule, ss, lambda: c2)
+                else:
+                    match_ops(ctx, env, tk, t, obs, q, "continuous+many_rows", lambda: c2)
+        ctx.sample(dict(base, tk=tk, rule=use_rule, r=65, q=[0] * 66))
+        return
+    if sub == "entries":
+        for tk in ("K", "B3", "Bdef"):
+            env = Env(2, ctx.seed, 2, None)
+            for r in cfg["entries_per_kmer"]:
+                case = dict(base, tk=tk, r=r)
+                if not ctx.journal(case):
+                    continue
+                rc = (0,) * (r + 1) + (1,)
+                ctx.ev(1, 1)
+                t, obs = build_ref(ctx, env, tk, rc, (), "continuous+entries_per_kmer_%d" % (256 if r < 1000 else 65536), lambda: case)
+                if obs is None:
+                    continue
+                p = __import__("pickle").loads(__import__("pickle").dumps(t))
+                check_content(ctx, env, "Bdef" if tk != "K" else "K", p, [(0, 0, i) for i in range(r)] + [(1, 0, r)], [],
+                              "pickle", "entries_per_kmer", case)
+                m = T_from_tables(tk, [t, t])
+                check_content(ctx, env, "Bdef" if tk != "K" else "K", m, ([(0, 0, i) for i in range(r)] + [(1, 0, r)]) * 2, [],
+                              "from_tables", "entries_per_kmer", case)
+        return
+    if sub == "manyrefs":
+        pool = [(0, 1, 1, 0), (1, 1, 1), (0, 0, 1, 0, 1), (1, 0)]
+        for tk in ("K", "B3", "Bdef"):
+            env = Env(2, ctx.seed, 2, None)
+            T = table_class(tk)
+            qs = [prep_query(env, tk if tk != "Bdef" else "B3", c, (), with_table=False) for c in all_seqs(2, 2, 3)]
+            for m in cfg["n_references"]:
+                for ids in ("default", "offset", "descending"):
+                    case = dict(base, tk=tk, m=m, ids=ids)
+                    if not ctx.journal(case):
+                        continue
+                    ctx.ev(1, 1)
+                    rid = list(range(m)) if ids == "default" else ([1000 + 7 * i for i in range(m)] if ids == "offset" else list(range(m, 0, -1)))
+                    seqs = [pool[i % 4] for i in range(m)]
+                    kw = dict(nb_kw(tk))
+                    if ids != "default":
+                        kw["ref_ids"] = rid if ids == "offset" else np.array(rid)
+                    t = T.from_sequences(2, [env.seq(s) for s in seqs], **kw)
+                    req = [(c, rid[j], p) for j, s in enumerate(seqs) for p, c in enumerate(env.kmers(s))]
+                    obs = check_content(ctx, env, "Bdef" if tk != "K" else "K", t, req, [], "from_sequences", "many_references", case)
+                    if obs is None:
+                        continue
+                    for q in qs:
+                        match_ops(ctx, env, tk, t, obs, q, "many_references", lambda: dict(case, q=list(q.codes)), counts=False)
+                    if m <= 257 and ids == "offset":
+                        subs = [T.from_sequences(2, [env.seq(s)], ref_ids=[rid[j]], **({"n_buckets": t.n_buckets} if tk != "K" else {}))
+                                for j, s in enumerate(seqs)]
+                        check_content(ctx, env, "Bdef" if tk != "K" else "K", T.from_tables(subs), req, [], "from_tables",
+                                      "many_tables", case)
+        ctx.sample(dict(base, tk="K", m=257, ids="offset"))
+        return
+    if sub == "buckets":
+        env = Env(4, ctx.seed, 2, None)
+        refs = [(0, 1, 2, 3, 0, 2), (3, 3, 3, 1), (2, 1, 0)]
+        for nb in cfg["n_buckets"]:
+            tk = "B%d" % nb
+            case = dict(base, tk=tk)
+            if not ctx.journal(case):
+                continue
+            ctx.ev(1, 1)
+            t = build_from_sequences(env, tk, refs)
+            req = [(c, j, p) for j, s in enumerate(refs) for p, c in enumerate(env.kmers(s))]
+            obs = check_content(ctx, env, tk, t, req, [], "from_sequences", "n_buckets_around_alphabet_size", case)
+            if obs is None:
+                continue
+            for qc in all_seqs(4, 2, 3):
+                q = prep_query(env, tk, qc, ())
+                match_ops(ctx, env, tk, t, obs, q, "n_buckets_around_alphabet_size", lambda: dict(case, q=list(qc)), counts=False)
+        return
+    if sub == "defbuckets":
+        env = Env(4, ctx.seed, 3, None)
+        cyc = (0, 1, 2, 3, 3, 2, 0, 0, 1, 3, 1, 1, 2, 2, 0, 3, 0, 2, 1, 0)
+        seen = set()
+        for L in cfg["default_bucket_lengths"]:
+            case = dict(base, L=L)
+            if not ctx.journal(case):
+                continue
+            ctx.ev(1, 1)
+            rc = tuple(cyc[i % len(cyc)] for i in range(L))
+            t = build_from_sequences(env, "Bdef", [rc])
+            seen.add(int(t.n_buckets))
+            req = [(c, 0, p) for p, c in enumerate(env.kmers(rc))]
+            obs = check_content(ctx, env, "Bdef", t, req, [], "from_sequences", "default_n_buckets", case)
+            if obs is None:
+                continue
+            qc = rc[::-1] + rc[:5]
+            q = prep_query(env, "B%d" % t.n_buckets, qc, ())
+            match_ops(ctx, env, "Bdef", t, obs, q, "default_n_buckets", lambda: dict(case, q=list(qc)), counts=False)
+        ctx.count("distinct_default_bucket_counts", len(seen))
+        return
+    if sub == "bigk":
+        import pickle
+
+        for n, k in cfg["big_k"]:
+            case = dict(base, n=n, k=k)
+            if not ctx.journal(case):
+                continue
+            ctx.ev(1, 1)
+            if n == 24:
+                alph = seq.ProteinSequence.alphabet
+                n = len(alph)
+                mk = lambda codes: _seq_of(seq.ProteinSequence(), codes)  # noqa: E731
+            else:
+                alph, mk = make_alphabet(n, ctx.seed)
+            top = n - 1
+            refs = [tuple([top] * k + [0, top, 1 % n, top]), tuple([1 % n] + [top] * k + [0])]
+            offs = list(range(k))
+            km = [model_kmers(s, n, offs) for s in refs]
+            req = [(c, j, p) for j, x in enumerate(km) for p, c in enumerate(x)]
+            icls = "kmer_codes_%s" % ("below_2^32" if n**k <= 2**32 else ("below_2^63" if n**k < 2**63 else "above_int64"))
+            either = n**k >= 2**63
+            try:
+                t = align.BucketKmerTable.from_sequences(k, [mk(s) for s in refs])
+                ka = t.kmer_alphabet
+                got_km = [ka.create_kmers(mk(s).code).tolist() for s in refs]
+            except Exception as e:  # noqa: BLE001
+                if either:
+                    ctx.count("either_alphabet_above_int64_refused")
+                else:
+                    ctx.violation("BucketKmerTable.from_sequences|raised_%s|%s" % (type(e).__name__, icls), str(e)[:200], case,
+                                  "table", type(e).__name__)
+                continue
+            if got_km != km:
+                ctx.violation("KmerAlphabet.create_kmers|wrong_codes|%s" % icls, "k-mer codes of a large k-mer alphabet", case, km, got_km)
+                continue
+            absent = [0, 1, n**k - 2 if n**k - 2 not in {c for c, _, _ in req} else 2]
+            variants = [("from_sequences", t), ("pickle", pickle.loads(pickle.dumps(t))),
+                        ("from_kmers", align.BucketKmerTable.from_kmers(ka, [np.array(x, dtype=np.int64) for x in km])),
+                        ("from_tables", align.BucketKmerTable.from_tables(
+                            [align.BucketKmerTable.from_sequences(k, [mk(s)], ref_ids=[j], n_buckets=t.n_buckets) for j, s in enumerate(refs)]))]
+            for site, tt in variants:
+                if not sparse_content(ctx, tt, "BucketKmerTable", req, site, icls, case, absent):
+                    break
+                want = [(p, a, b) for p, c in enumerate(km[1]) for (cc, a, b) in req if cc == c]
+                r = rows(np.asarray(tt.match(mk(refs[1]))), 3)
+                if cmp_multiset(r or [], want) is not None:
+                    ctx.violation("BucketKmerTable.match|wrong_rows|%s" % icls, "match on a large k-mer alphabet", case, want, r)
+                    break
+                r = rows(np.asarray(tt.match_table(t)), 4)
+                want4 = [(a, b, a2, b2) for (c, a, b) in req for (c2, a2, b2) in req if c == c2]
+                if cmp_multiset(r or [], want4) is not None:
+                    ctx.violation("BucketKmerTable.match_table|wrong_rows|%s" % icls, "match_table on a large k-mer alphabet", case,
+                                  want4[:20], (r or [])[:20])
+                    break
+        return
+    if sub == "bigalph":
+        for n in cfg["alphabet_sizes"]:
+            alph = seq.Alphabet(list(range(n)))
+            for tk in ("K", "B3", "B257"):
+                case = dict(base, n=n, tk=tk)
+                if not ctx.journal(case):
+                    continue
+                ctx.ev(1, 1)
+
+                def mk(codes, alph=alph):
+                    return seq.GeneralSequence(alph, list(codes))
+                refs = [(n - 1, n - 1, 0, n - 2, n - 1, n - 1), (0, n - 1, n - 1)]
+                km = [model_kmers(s, n, [0, 1]) for s in refs]
+                req = [(c, j, p) for j, x in enumerate(km) for p, c in enumerate(x)]
+                t = table_class(tk).from_sequences(2, [mk(s) for s in refs], **nb_kw(tk))
+                if not sparse_content(ctx, t, cls_name(tk), req, "from_sequences", "alphabet_size_around_256", case, [0, 1, n * n - 2]):
+                    continue
+                qc = (n - 1, n - 1, n - 1, 0)
+                want = [(p, a, b) for p, c in enumerate(model_kmers(qc, n, [0, 1])) for (cc, a, b) in req if cc == c]
+                r = rows(np.asarray(t.match(mk(qc))), 3)
+                if cmp_multiset(r or [], want) is not None:
+                    ctx.violation("%s.match|wrong_rows|alphabet_size_around_256" % cls_name(tk), "match with a sequence code dtype "
+                                  "switch", case, want, r)
+        return
+    if sub == "longsel":
+        db = debruijn(2, 10)
+        longs = [db, db[::-1], tuple((i * i // 7 + i // 3) % 2 for i in range(700))]
+        env = Env(2, ctx.seed, 3, None)
+        for perm in ("none", "random", "freq_cyc"):
+            order = perm_order(perm, 2, 3, 8)
+            pobj = perm_impl(perm, env.kalph, 2, 3, 8, ctx.seed)
+            for w in cfg["long_windows"]:
+                sel = align.MinimizerSelector(env.kalph, w, pobj)
+                for li, codes in enumerate(longs):
+                    case = dict(base, sel="min", perm=perm, w=w, seq=li)
+                    if ctx.journal(case):
+                        check_min_case(ctx, env, sel, order, case, w, codes, "long_sequence+perm_" + perm)
+        for k, s in cfg["long_sync"]:
+            envk = Env(2, ctx.seed, k, None)
+            sorder = perm_order("random", 2, s, 2**s)
+            salph = align.KmerAlphabet(envk.alph, s)
+            for offs in ((0,), (0, -1), (2,)):
+                sel = align.SyncmerSelector(envk.alph, k, s, perm_impl("random", salph, 2, s, 2**s, ctx.seed), offset=offs)
+                csel = align.CachedSyncmerSelector(envk.alph, k, s, perm_impl("random", salph, 2, s, 2**s, ctx.seed), offset=offs)
+                w = k - s + 1
+                oset = {o + w if o < 0 else o for o in offs}
+                for li, codes in enumerate(longs):
+                    case = dict(base, sel="sync", k=k, s=s, offset=list(offs), seq=li)
+                    if not ctx.journal(case):
+                        continue
+                    km = envk.kmers(codes)
+                    want = [(i, km[i]) for i in range(len(km)) if relmin_of_kmer(list(codes[i:i + k]), s, sorder, 2) in oset]
+                    ctx.ev(1, 1)
+                    sq = envk.seq(codes)
+                    sel_call(ctx, "SyncmerSelector.select", "long_sequence", case, lambda: sel.select(sq), want, None)
+                    sel_call(ctx, "CachedSyncmerSelector.select", "long_sequence", case, lambda: csel.select(sq), want, None)
+        return
+    raise ValueError(sub)
+
+
+def T_from_tables(tk, tables):
+    return table_class(tk).from_tables(tables)
+
+
+def _seq_of(s, codes):
+    s.code = np.array(codes, dtype=np.uint8)
+    return s
+
+
+def replay_size(case, ctx):
+    shard = {"kind": "size", "sub": case["sub"], "tk": case.get("tk", "K"), "rule": case.get("rule", 0)}
+    run_size(shard, ctx)
+
+
+SHARD_SOURCES.append(size_shards)
+RUNNERS["size"] = run_size
+REPLAYERS["size"] = replay_size
+
+
+# ---------------------------------------------------------------------------
+# reuse: a second operation on the same object behaves like on a fresh object (audit dimensions 2, 8, 9)
+# ---------------------------------------------------------------------------
+def _res(fn):
+    try:
+        return _tolist(fn())
+    except Exception as e:  # noqa: BLE001
+        return "raised " + type(e).__name__
+
+
+def reuse_objects(pal):
+    """-> {name: (make() -> object, [(op name, fn(object) -> result)], snapshot(object))}; every op list also holds refused
+    calls; results are compared by value"""
+    import copy
+    import pickle
+
+    import biotite.sequence.align as align
+    from biotite.sequence.align.buckets import bucket_number
+
+    alph, mk = make_alphabet(2, pal)
+    alph3, mk3 = make_alphabet(3, pal)
+    ae = AliasEnv(pal)
+    out = {}
+    q1, q2, qs = mk((0, 1, 1, 0, 1)), mk((1, 1, 1, 0, 0, 0, 1)), mk((1,))
+    q3 = mk3((0, 1, 2))
+    ka2, ka3 = align.KmerAlphabet(alph, 2), align.KmerAlphabet(alph, 3)
+    ruleA, _ = make_rule(Env(2, pal, 2, None), "ident", 0, 0)
+    ruleB, _ = make_rule(Env(2, pal, 2, None), "offdiag", 0, 1)
+    rule3, _ = make_rule(Env(3, pal, 2, None), "ident", 0, 0)
+    for tk in ("K", "B3"):
+        for sp in (None, [0, 2]):
+            T = table_class(tk)
+            kw = nb_kw(tk)
+            spkw = {"spacing": sp_arg(sp, "str")} if sp else {}
+
+            def make(T=T, kw=kw, spkw=spkw):
+                return T.from_sequences(2, [mk(s) for s in ALIAS_REFS], ref_ids=[4, 9], **spkw, **kw)
+            other = T.from_sequences(2, [q2], ref_ids=[1], **spkw, **kw)
+            otherk = T.from_sequences(3, [q2], **kw)
+            m5 = mask_array(5, (2,))
+            N = 4
+            ops = [
+                ("match_q1", lambda t: t.match(q1)), ("match_q2", lambda t: t.match(q2)), ("match_short", lambda t: t.match(qs)),
+                ("match_masked", lambda t: t.match(q1, ignore_mask=m5.copy())),
+                ("match_bad_mask", lambda t: t.match(q1, ignore_mask=np.zeros(3, dtype=bool))),
+                ("match_other_alphabet", lambda t: t.match(q3)),
+                ("match_ruleA", lambda t: t.match(q1, similarity_rule=ruleA)), ("match_ruleB", lambda t: t.match(q1, similarity_rule=ruleB)),
+                ("match_rule_wrong_alphabet", lambda t: t.match(q1, similarity_rule=rule3)),
+                ("mks", lambda t: t.match_kmer_selection(np.array([5, 6, 7], dtype=np.uint32), np.array([1, 0, 3]))),
+                ("mks_bad_code", lambda t: t.match_kmer_selection(np.array([5], dtype=np.uint32), np.array([N]))),
+                ("mks_length_mismatch", lambda t: t.match_kmer_selection(np.array([5, 6], dtype=np.uint32), np.array([1]))),
+                ("match_table", lambda t: t.match_table(other)), ("match_table_self", lambda t: t.match_table(t)),
+                ("match_table_rule", lambda t: t.match_table(other, similarity_rule=ruleB)),
+                ("match_table_other_k", lambda t: t.match_table(otherk)),
+                ("count", lambda t: t.count(np.arange(N))), ("count_bad", lambda t: t.count(np.array([0, N]))),
+                ("get_kmers", lambda t: t.get_kmers()), ("getitem", lambda t: t[1]), ("getitem_N", lambda t: t[N]),
+                ("getitem_negative", lambda t: t[-1]),
+                ("pickle", lambda t: _entries(pickle.loads(pickle.dumps(t)), N)), ("deepcopy", lambda t: _entries(copy.deepcopy(t), N)),
+                ("merge_self", lambda t: _entries(T.from_tables([t, t]), N)), ("merge_other_k", lambda t: T.from_tables([t, otherk])),
+                ("str", lambda t: str(t)), ("eq_other", lambda t: t == other),
+            ]
+            out["%s_%s" % (cls_name(tk), "spaced" if sp else "continuous")] = (make, ops, lambda t: snap_table(t, ae))
+    long_seq = ALIAS_REFS[0] + ALIAS_REFS[1]
+    seqA, seqB = mk(long_seq), mk(long_seq[::-1] + (1, 1, 0))
+    kmA = np.array(model_kmers(long_seq, 2, [0, 1, 2]), dtype=np.int64)
+    kmB = kmA[::-1].copy()
+    for perm in ("none", "freq_cyc", "random"):
+        makers = {
+            "MinimizerSelector": lambda perm=perm: align.MinimizerSelector(ka3, 3, perm_impl(perm, ka3, 2, 3, 8, pal)),
+            "MincodeSelector": lambda perm=perm: align.MincodeSelector(ka3, 2, perm_impl(perm, ka3, 2, 3, 8, pal)),
+            "SyncmerSelector": lambda perm=perm: align.SyncmerSelector(alph, 3, 2, perm_impl(perm, ka2, 2, 2, 4, pal), offset=(0, -1)),
+            "CachedSyncmerSelector": lambda perm=perm: align.CachedSyncmerSelector(alph, 3, 2, perm_impl(perm, ka2, 2, 2, 4, pal), offset=(0, -1)),
+        }
+        for name, mkr in makers.items():
+            ops = [("select_A", lambda s: s.select(seqA)), ("select_B", lambda s: s.select(seqB)), ("select_short", lambda s: s.select(qs)),
+                   ("select_other_alphabet", lambda s: s.select(q3)), ("select_nocheck", lambda s: s.select(seqA, alphabet_check=False)),
+                   ("from_kmers_A", lambda s: s.select_from_kmers(kmA.copy())), ("from_kmers_B", lambda s: s.select_from_kmers(kmB.copy())),
+                   ("from_kmers_one", lambda s: s.select_from_kmers(np.array([5]))),
+                   ("pickle", lambda s: pickle.loads(pickle.dumps(s)).select(seqA) if perm != "none" or True else None)]
+            out["%s_%s" % (name, perm)] = (mkr, ops, lambda s: [_res(lambda: s.select(seqA)), _res(lambda: s.select_from_kmers(kmB.copy()))])
+    for perm in ("freq_cyc", "freq_table", "random"):
+        ops = [("permute_A", lambda p: p.permute(kmA.copy())), ("permute_B", lambda p: p.permute(kmB.copy())),
+               ("permute_empty", lambda p: p.permute(np.zeros(0, dtype=np.int64))), ("min_max", lambda p: [int(p.min), int(p.max)]),
+               ("permute_bad", lambda p: p.permute(np.array([99])) if perm != "random" else "n/a")]
+        out["Permutation_%s" % perm] = (lambda perm=perm: perm_impl(perm, ka3, 2, 3, 8, pal), ops, lambda p: _res(lambda: p.permute(np.arange(8))))
+    ka23 = align.KmerAlphabet(alph3, 2)
+    ops = [("similar_k2", lambda r: [r.similar_kmers(ka2, c) for c in range(4)]), ("similar_k3", lambda r: [r.similar_kmers(ka3, c) for c in range(8)]),
+           ("similar_other_alphabet", lambda r: r.similar_kmers(ka23, 0)), ("similar_bad_code", lambda r: r.similar_kmers(ka2, 4)),
+           ("similar_spaced", lambda r: r.similar_kmers(align.KmerAlphabet(alph, 2, "101"), 2))]
+    for mname in MATRICES:
+        out["ScoreThresholdRule_" + mname] = (lambda mname=mname: make_rule(Env(2, pal, 2, None), mname, 0, 0)[0], ops,
+                                              lambda r: [_res(lambda: r.similar_kmers(ka2, c)) for c in range(4)])
+    for sp in (None, "101"):
+        ops = [("create_u8", lambda a: a.create_kmers(np.array(long_seq, dtype=np.uint8))),
+               ("create_u16", lambda a: a.create_kmers(np.array(long_seq[::-1], dtype=np.uint16))),
+               ("create_u64", lambda a: a.create_kmers(np.array(long_seq, dtype=np.uint64))),
+               ("create_short", lambda a: a.create_kmers(np.array([1], dtype=np.uint8))),
+               ("create_bad_code", lambda a: a.create_kmers(np.array([0, 1, 2, 1, 0], dtype=np.uint8))),
+               ("kmer_array_length", lambda a: [int(a.kmer_array_length(L)) for L in range(3, 9)]),
+               ("split_fuse", lambda a: int(a.fuse(a.split(3)))), ("split_bad", lambda a: a.split(99)),
+               ("encode_decode", lambda a: a.encode(a.decode(2))), ("spacing", lambda a: a.spacing),
+               ("pickle", lambda a: snap_alphabet(pickle.loads(pickle.dumps(a)))), ("eq", lambda a: a == align.KmerAlphabet(alph, 2, sp))]
+        out["KmerAlphabet_%s" % ("spaced" if sp else "continuous")] = (lambda sp=sp: align.KmerAlphabet(alph, 2, sp), ops, snap_alphabet)
+    # module-level state: the default bucket count (buckets.bucket_number caches its prime table)
+    kbig = np.arange(20000, dtype=np.int64) % 64
+    ka43 = align.KmerAlphabet(make_alphabet(4, pal)[0], 3)
+
+    class Mod:  # stands for the module: "fresh" cannot be had without a new interpreter, so twins are built in another order
+        pass
+    ops = [("default_small", lambda m: int(align.BucketKmerTable.from_kmers(ka43, [kbig[:9]]).n_buckets)),
+           ("default_large", lambda m: int(align.BucketKmerTable.from_kmers(ka43, [kbig]).n_buckets)),
+           ("default_from_sequences", lambda m: int(align.BucketKmerTable.from_sequences(2, [mk(ALIAS_REFS[0])]).n_buckets)),
+           ("bucket_number", lambda m: [int(bucket_number(n)) for n in (0, 1, 2, 3, 4, 8, 9, 10, 13, 14, 100, 10**6)]),
+           ("bucket_number_load", lambda m: [int(bucket_number(n, 0.5)) for n in (1, 5, 6, 50)]),
+           ("bucket_number_too_large", lambda m: bucket_number(10**30)),
+           ("equal_twice", lambda m: align.BucketKmerTable.from_kmers(ka43, [kbig[:50]]) == align.BucketKmerTable.from_kmers(ka43, [kbig[:50]]))]
+    out["default_bucket_count"] = (Mod, ops, lambda m: [int(bucket_number(n)) for n in range(0, 40)])
+    return out
+
+
+def reuse_shards(tier):
+    return [{"kind": "reuse", "part": p, "parts": 6} for p in range(6)]
+
+
+def check_reuse_case(ctx, objs, oname, a, b):
+    make, ops, snap = objs[oname]
+    opd = dict(ops)
+    case = {"kind": "reuse", "object": oname, "first": a, "second": b}
+    fresh = make()
+    want_b = _res(lambda: opd[b](fresh))
+    want_snap = snap(make())
+    obj = make()
+    ra = _res(lambda: opd[a](obj))
+    rb = _res(lambda: opd[b](obj))
+    refused = isinstance(ra, str) and ra.startswith("raised")
+    ctx.ev(1, 1 if a != b else 0)
+    ctx.count("reuse_after_refused_call" if refused else "reuse_after_successful_call")
+    ctx.outcome((oname, b, json.dumps(want_b, default=str)[:500]))
+    cls = "after_refused_call" if refused else "after_successful_call"
+    site = oname.split("_")[0] if not oname.startswith("default") else "buckets"
+    if rb != want_b:
+        ctx.violation("%s.%s|differs_from_fresh_object|%s" % (site, b, cls), "the second operation on an object gives another result "
+                      "than on a fresh object (first operation: %s)" % a, case, want_b, rb)
+        return
+    got_snap = snap(obj)
+    if got_snap != want_snap:
+        ctx.violation("%s.%s|object_changed|%s" % (site, a if not refused else a, cls), "the object's observation changed through "
+                      "operations that do not modify it", case, want_snap, got_snap)
+
+
+def run_reuse(shard, ctx):
+    objs = reuse_objects(ctx.seed)
+    i = 0
+    for oname in objs:
+        names = [n for n, _ in objs[oname][1]]
+        for a in names:
+            for b in names:
+                i += 1
+                if i % shard["parts"] != shard["part"]:
+                    continue
+                case = {"kind": "reuse", "object": oname, "first": a, "second": b}
+                if ctx.journal(case):
+                    check_reuse_case(ctx, objs, oname, a, b)
+                    if len(ctx.samples) < 1 and a == "match_short" and b == "match_ruleB":
+                        ctx.sample(case)
+
+
+def replay_reuse(case, ctx):
+    check_reuse_case(ctx, reuse_objects(ctx.seed), case["object"], case["first"], case["second"])
+
+
+SHARD_SOURCES.append(reuse_shards)
+RUNNERS["reuse"] = run_reuse
+REPLAYERS["reuse"] = replay_reuse
+
+
+# ---------------------------------------------------------------------------
+# flavour: the same values in another array flavour give the same result (audit dimensions 4, 5)
+# ---------------------------------------------------------------------------
+LAYOUTS = ("strided", "negative_stride", "readonly", "column_view", "subclass", "fortran_2d", "strided_rows")
+OTHER_TYPES = ("int8", "int16", "int32", "int64", "uint8", "uint16", "uint32", "uint64", "intp", "list", "tuple", "range")
+
+
+class _Sub(np.ndarray):
+    pass
+
+
+def flavoured(base, flav):
+    """`base` (contiguous ndarray of the documented dtype) in another flavour; None when not applicable"""
+    b = np.asarray(base)
+    if flav == "strided":
+        if b.ndim != 1:
+            return None
+        big = np.zeros(2 * len(b), dtype=b.dtype)
+        big[::2] = b
+        return big[::2]
+    if flav == "negative_stride":
+        if b.ndim != 1:
+            return None
+        return b[::-1].copy()[::-1]
+    if flav == "readonly":
+        a = b.copy()
+        a.setflags(write=False)
+        return a
+    if flav == "column_view":
+        if b.ndim != 1:
+            return None
+        big = np.zeros((len(b), 3), dtype=b.dtype)
+        big[:, 1] = b
+        return big[:, 1]
+    if flav == "subclass":
+        return b.copy().view(_Sub)
+    if flav == "fortran_2d":
+        return np.asfortranarray(b) if b.ndim == 2 else None
+    if flav == "strided_rows":
+        if b.ndim != 2:
+            return None
+        big = np.zeros((2 * b.shape[0], b.shape[1]), dtype=b.dtype)
+        big[::2] = b
+        return big[::2]
+    if flav in ("list", "tuple"):
+        return b.tolist() if flav == "list" else (tuple(b.tolist()) if b.ndim == 1 else tuple(map(tuple, b.tolist())))
+    if flav == "range":
+        if b.ndim == 1 and len(b) and b.tolist() == list(range(int(b[0]), int(b[0]) + len(b))):
+            return range(int(b[0]), int(b[0]) + len(b))
+        return None
+    dt = np.dtype(flav)
+    if b.dtype == dt:
+        return None
+    if b.size and (b.min() < np.iinfo(dt).min or b.max() > np.iinfo(dt).max):
+        return None
+    return b.astype(dt)
+
+
+def flavour_sites(pal):
+    """-> list of (site, argument, base array, accepted other types, fn(array) -> result)"""
+    import biotite.sequence as seq
+    import biotite.sequence.align as align
+
+    alph, mk = make_alphabet(2, pal)
+    out = []
+    codes = np.array(ALIAS_REFS[0] + ALIAS_REFS[1], dtype=np.uint8)
+    ka2, ka2s, ka3 = align.KmerAlphabet(alph, 2), align.KmerAlphabet(alph, 2, "101"), align.KmerAlphabet(alph, 3)
+    unsigned = ("uint8", "uint16", "uint32", "uint64")
+    anyint = tuple(t for t in OTHER_TYPES if t not in ("list", "tuple", "range"))
+    for nm, ka in (("continuous", ka2), ("spaced", ka2s)):
+        out.append(("KmerAlphabet.create_kmers", "seq_code+" + nm, codes, unsigned, lambda a, ka=ka: ka.create_kmers(a)))
+
+    def seq_with(a):
+        s = seq.GeneralSequence(alph)
+        s.code = a
+        return s
+    q = mk((0, 1, 1, 0, 1))
+    for tk in ("K", "B3"):
+        T, kw, cn = table_class(tk), nb_kw(tk), cls_name(tk)
+        base_t = T.from_sequences(2, [mk(ALIAS_REFS[0])], **kw)
+        out.append((cn + ".from_sequences", "sequence_code", codes, (), lambda a, T=T, kw=kw: _entries(T.from_sequences(2, [seq_with(a)], **kw), 4)))
+        out.append((cn + ".match", "sequence_code", codes, (), lambda a, t=base_t: t.match(seq_with(a))))
+        km = np.array(model_kmers(tuple(codes.tolist()), 2, [0, 1]), dtype=np.int64)
+        pos = np.arange(len(km), dtype=np.uint32)
+        out.append((cn + ".from_kmers", "kmers", km, (), lambda a, T=T, kw=kw: _entries(T.from_kmers(ka2, [a], **kw), 4)))
+        out.append((cn + ".from_kmer_selection", "kmers", km, (), lambda a, T=T, kw=kw: _entries(T.from_kmer_selection(ka2, [pos], [a], **kw), 4)))
+        out.append((cn + ".from_kmer_selection", "positions", pos, anyint + ("range",),
+                    lambda a, T=T, kw=kw: _entries(T.from_kmer_selection(ka2, [a if isinstance(a, np.ndarray) else np.array(a)], [km], **kw), 4)))
+        out.append((cn + ".match_kmer_selection", "kmers", km, anyint, lambda a, t=base_t: t.match_kmer_selection(pos, a)))
+        out.append((cn + ".match_kmer_selection", "positions", pos, anyint, lambda a, t=base_t: t.match_kmer_selection(a, km)))
+        out.append((cn + ".count", "kmers", km, anyint, lambda a, t=base_t: t.count(a)))
+        rid = np.array([7, 3], dtype=np.int64)
+        out.append((cn + ".from_sequences", "ref_ids", rid, OTHER_TYPES,
+                    lambda a, T=T, kw=kw: _entries(T.from_sequences(2, [mk(s) for s in ALIAS_REFS], ref_ids=a, **kw), 4)))
+        out.append((cn + ".from_kmers", "ref_ids", rid, OTHER_TYPES,
+                    lambda a, T=T, kw=kw: _entries(T.from_kmers(ka2, [km, km[:3]], ref_ids=a, **kw), 4)))
+        if tk == "K":
+            p2 = np.array([[4, 0], [4, 3], [9, 1]], dtype=np.uint32)
+            out.append((cn + ".from_positions", "position_array", p2, anyint, lambda a, T=T: _entries(T.from_positions(ka2, {1: a, 2: p2[:1]}), 4)))
+    km3 = np.array(model_kmers(tuple(codes.tolist()), 2, [0, 1, 2]), dtype=np.int64)
+    sels = {"MinimizerSelector": align.MinimizerSelector(ka3, 3), "MincodeSelector": align.MincodeSelector(ka3, 2),
+            "SyncmerSelector": align.SyncmerSelector(alph, 3, 2, offset=(0, -1)),
+            "CachedSyncmerSelector": align.CachedSyncmerSelector(alph, 3, 2, offset=(0, -1)),
+            "MinimizerSelector+random": align.MinimizerSelector(ka3, 3, align.RandomPermutation()),
+            "MinimizerSelector+frequency": align.MinimizerSelector(ka3, 3, perm_impl("freq_cyc", ka3, 2, 3, 8, pal))}
+    for nm, s in sels.items():
+        out.append((nm.split("+")[0] + ".select_from_kmers", "kmers" + ("+" + nm.split("+")[1] if "+" in nm else ""), km3, (), lambda a, s=s: s.select_from_kmers(a)))
+        out.append((nm.split("+")[0] + ".select", "sequence_code" + ("+" + nm.split("+")[1] if "+" in nm else ""), codes, (), lambda a, s=s: s.select(seq_with(a))))
+    out.append(("RandomPermutation.permute", "kmers", km3, (), lambda a: align.RandomPermutation().permute(a)))
+    fp = perm_impl("freq_cyc", ka3, 2, 3, 8, pal)
+    out.append(("FrequencyPermutation.permute", "kmers", km3, anyint, lambda a: fp.permute(a)))
+    cnt = np.array([(x * 3 + 1) % 8 for x in range(8)], dtype=np.int64)
+    out.append(("FrequencyPermutation.__init__", "counts", cnt, OTHER_TYPES, lambda a: align.FrequencyPermutation(ka3, a).permute(np.arange(8))))
+    off = np.array([0, -1], dtype=np.int64)
+    for cname in ("SyncmerSelector", "CachedSyncmerSelector"):
+        out.append((cname + ".__init__", "offset", off, ("int8", "int16", "int32", "intp", "list", "tuple"),
+                    lambda a, cname=cname: getattr(align, cname)(alph, 3, 2, offset=a).select(seq_with(codes))))
+    return out
+
+
+def scalar_sites(pal):
+    """-> list of (site, argument, python value, fn(value) -> result): numpy scalar types instead of Python numbers"""
+    import biotite.sequence.align as align
+
+    alph, mk = make_alphabet(2, pal)
+    s = mk(ALIAS_REFS[0])
+    ka = align.KmerAlphabet(alph, 2)
+    t = align.KmerTable.from_sequences(2, [s])
+    b = align.BucketKmerTable.from_sequences(2, [s], n_buckets=3)
+    return [
+        ("KmerTable.from_sequences", "k", 2, lambda v: _entries(align.KmerTable.from_sequences(v, [s]), 4)),
+        ("BucketKmerTable.from_sequences", "k", 2, lambda v: _entries(align.BucketKmerTable.from_sequences(v, [s], n_buckets=3), 4)),
+        ("BucketKmerTable.from_sequences", "n_buckets", 3, lambda v: [int(align.BucketKmerTable.from_sequences(2, [s], n_buckets=v).n_buckets),
+                                                                    _entries(align.BucketKmerTable.from_sequences(2, [s], n_buckets=v), 4)]),
+        ("KmerAlphabet.__init__", "k", 2, lambda v: align.KmerAlphabet(alph, v).create_kmers(s.code)),
+        ("KmerTable.__getitem__", "kmer", 1, lambda v: t[v]), ("BucketKmerTable.__getitem__", "kmer", 1, lambda v: b[v]),
+        ("KmerTable.__contains__", "kmer", 1, lambda v: v in t),
+        ("KmerTable.from_sequences", "ref_id", 5, lambda v: _entries(align.KmerTable.from_sequences(2, [s], ref_ids=[v]), 4)),
+        ("MinimizerSelector.__init__", "window", 3, lambda v: align.MinimizerSelector(ka, v).select(s)),
+        ("SyncmerSelector.__init__", "k_s", 1, lambda v: align.SyncmerSelector(alph, v + 2, v + 1).select(s)),
+        ("MincodeSelector.__init__", "compression", 2, lambda v: align.MincodeSelector(ka, v).select(s)),
+        ("ScoreThresholdRule.__init__", "threshold", 0, lambda v: make_scalar_rule(alph, v).similar_kmers(ka, 1)),
+        ("KmerAlphabet.kmer_array_length", "length", 7, lambda v: int(ka.kmer_array_length(v))),
+    ]
+
+
+def make_scalar_rule(alph, thr):
+    import biotite.sequence.align as align
+
+    return align.ScoreThresholdRule(align.SubstitutionMatrix(alph, alph, np.array(sim_matrix("offdiag", 2), dtype=np.int32)), thr)
+
+
+SCALARS = ("int64", "int32", "uint8", "uint64", "intp", "float64", "float32", "bool_", "0d_array")
+
+
+def empty_sites(pal):
+    """-> list of (site, class, fn() -> result, model value): empty / single pieces"""
+    import biotite.sequence.align as align
+
+    alph, mk = make_alphabet(2, pal)
+    ka = align.KmerAlphabet(alph, 2)
+    s = mk(ALIAS_REFS[0])
+    e64, e32 = np.zeros(0, dtype=np.int64), np.zeros(0, dtype=np.uint32)
+    out = []
+    for tk in ("K", "B3"):
+        T, kw, cn = table_class(tk), nb_kw(tk), cls_name(tk)
+        t = T.from_sequences(2, [s], **kw)
+        full = _entries(t, 4)
+        out += [
+            (cn + ".count", "empty_array", lambda t=t: t.count(e64), []),
+            (cn + ".match_kmer_selection", "empty_arrays", lambda t=t: t.match_kmer_selection(e32, e64), []),
+            (cn + ".from_kmers", "no_arrays", lambda T=T, kw=kw: _entries(T.from_kmers(ka, [], **kw), 4), []),
+            (cn + ".from_kmers", "empty_first_inner_last", lambda T=T, kw=kw: _entries(T.from_kmers(ka, [e64, np.array([1]), e64, np.array([2, 1]), e64], **kw), 4),
+             [[1, 1, 0], [1, 3, 1], [2, 3, 0]]),
+            (cn + ".from_kmer_selection", "no_arrays", lambda T=T, kw=kw: _entries(T.from_kmer_selection(ka, [], [], **kw), 4), []),
+            (cn + ".from_kmer_selection", "empty_first_inner_last",
+             lambda T=T, kw=kw: _entries(T.from_kmer_selection(ka, [e32, np.array([8], dtype=np.uint32), e32], [e64, np.array([3]), e64], **kw), 4),
+             [[3, 1, 8]]),
+            (cn + ".from_tables", "single_table", lambda T=T, t=t: _entries(T.from_tables([t]), 4), full),
+            (cn + ".from_tables", "empty_first_inner_last",
+             lambda T=T, t=t, kw=kw: _entries(T.from_tables([T.from_kmers(ka, [e64], **kw), t, T.from_kmers(ka, [e64], **kw), t,
+                                                             T.from_kmers(ka, [e64], **kw)]), 4), sorted(full + full)),
+            (cn + ".match_table", "empty_argument", lambda T=T, t=t, kw=kw: t.match_table(T.from_kmers(ka, [e64], **kw)), []),
+            (cn + ".match_table", "empty_self", lambda T=T, t=t, kw=kw: T.from_kmers(ka, [e64], **kw).match_table(t), []),
+            (cn + ".from_sequences", "all_masked", lambda T=T, kw=kw: _entries(T.from_sequences(2, [s], ignore_masks=[np.ones(len(s), dtype=bool)], **kw), 4), []),
+            (cn + ".match", "all_masked", lambda t=t: t.match(s, ignore_mask=np.ones(len(s), dtype=bool)), []),
+            (cn + ".match", "sequence_of_length_k", lambda t=t: t.match(mk((0, 1))),
+             [[0, 0, p] for p, c in enumerate(model_kmers(ALIAS_REFS[0], 2, [0, 1])) if c == 1]),
+        ]
+        if tk == "K":
+            out += [(cn + ".from_positions", "empty_dict", lambda T=T: _entries(T.from_positions(ka, {}), 4), []),
+                    (cn + ".from_positions", "only_empty_arrays", lambda T=T: _entries(T.from_positions(ka, {0: np.zeros((0, 2), dtype=np.uint32)}), 4), []),
+                    (cn + ".from_positions", "single_row", lambda T=T: _entries(T.from_positions(ka, {3: np.array([[5, 6]], dtype=np.uint32)}), 4), [[3, 5, 6]])]
+    return out
+
+
+def flavour_shards(tier):
+    return [{"kind": "flavour", "part": p, "parts": 4} for p in range(4)]
+
+
+def check_flavour_case(ctx, site, arg, base, accepted, fn, flav):
+    arr = flavoured(base, flav)
+    if arr is None:
+        return
+    case = {"kind": "flavour", "site": site, "arg": arg, "flavour": flav}
+    want = _res(lambda: fn(np.asarray(base).copy()))
+    got = _res(lambda: fn(arr))
+    ctx.ev(1, 1)
+    ctx.outcome((site, arg, flav, got if isinstance(got, str) else "value"))
+    layout = flav in LAYOUTS
+    must = layout or flav in accepted
+    if got == want:
+        ctx.count("flavour_accepted")
+        return
+    if isinstance(got, str) and got.startswith("raised") and not must:
+        ctx.count("either_flavour_refused")
+        return
+    if isinstance(got, str) and got.startswith("raised"):
+        ctx.violation("%s|%s|%s_%s" % (site, got.replace(" ", "_"), flav if layout else "dtype_" + flav, arg.split("+")[0]),
+                      "a legal array (%s) is refused" % flav, case, want, got)
+    else:
+        ctx.violation("%s|differs_from_contiguous|%s_%s" % (site, flav if layout else "dtype_" + flav, arg.split("+")[0]),
+                      "the same values in another array flavour (%s) give another result" % flav, case, want, got)
+
+
+def scalar_value(v, kind):
+    if kind == "0d_array":
+        return np.array(v)
+    if kind in ("float64", "float32"):
+        return getattr(np, kind)(v)
+    if kind == "bool_":
+        return np.bool_(v) if v in (0, 1) else None
+    return getattr(np, kind)(v)
+
+
+def run_flavour(shard, ctx):
+    sites = flavour_sites(ctx.seed)
+    i = 0
+    for site, arg, base, accepted, fn in sites:
+        for flav in LAYOUTS + OTHER_TYPES:
+            i += 1
+            if i % shard["parts"] != shard["part"]:
+                continue
+            case = {"kind": "flavour", "site": site, "arg": arg, "flavour": flav}
+            if ctx.journal(case):
+                check_flavour_case(ctx, site, arg, base, accepted, fn, flav)
+    if shard["part"] == 0:
+        for site, arg, val, fn in scalar_sites(ctx.seed):
+            want = _res(lambda: fn(val))
+            for kind in SCALARS:
+                v = scalar_value(val, kind)
+                if v is None:
+                    continue
+                case = {"kind": "flavour", "site": site, "arg": arg, "scalar": kind}
+                if not ctx.journal(case):
+                    continue
+                got = _res(lambda: fn(v))
+                ctx.ev(1, 1)
+                integral = kind not in ("float64", "float32", "bool_", "0d_array") or arg in ("compression",)
+                if got == want:
+                    ctx.count("scalar_accepted")
+                elif isinstance(got, str) and not integral:
+                    ctx.count("either_scalar_refused")
+                else:
+                    ctx.violation("%s|%s|numpy_scalar_%s" % (site, got.replace(" ", "_") if isinstance(got, str) else "differs_from_python_number", arg),
+                                  "a numpy scalar (%s) instead of a Python number changes the result" % kind, case, want, got)
+        for site, cls, fn, model in empty_sites(ctx.seed):
+            case = {"kind": "flavour", "site": site, "empty": cls}
+            if not ctx.journal(case):
+                continue
+            got = _res(fn)
+            ctx.ev(1, 1)
+            g = sorted(got) if isinstance(got, list) else got
+            if g != sorted(model):
+                ctx.violation("%s|%s|%s" % (site, got.replace(" ", "_") if isinstance(got, str) else "wrong_rows", cls),
+                              "empty / single piece", case, model, got)
+        ctx.sample({"kind": "flavour", "site": "KmerTable.from_kmers", "arg": "kmers", "flavour": "strided"})
+
+
+def replay_flavour(case, ctx):
+    run_flavour({"kind": "flavour", "part": 0, "parts": 1}, ctx)
+
+
+SHARD_SOURCES.append(flavour_shards)
+RUNNERS["flavour"] = run_flavour
+REPLAYERS["flavour"] = replay_flavour
+
+
+# ---------------------------------------------------------------------------
+# order: results do not depend on the order of references / rows / dict keys / tables (audit dimension 7)
+# ---------------------------------------------------------------------------
+def order_shards(tier):
+    return [{"kind": "order", "tk": tk, "sp": sp} for tk in ("K", "B3", "Bdef") for sp in (None, [0, 2])] + [{"kind": "order", "tk": "sel", "sp": None}]
+
+
+def _ms(x):
+    return sorted(map(tuple, x)) if isinstance(x, list) else x
+
+
+def run_order(shard, ctx):
+    import biotite.sequence.align as align
+
+    tk, sp = shard["tk"], shard["sp"]
+    base = {"kind": "order", "tk": tk, "sp": sp}
+
+    def judge(site, cls, perm, want, got):
+        ctx.ev(1, 1 if list(perm) != sorted(perm) else 0)
+        ctx.outcome((site, cls, str(want)[:300]))
+        if want != got:
+            ctx.violation("%s|depends_on_order|%s" % (site, cls), "the result changes when the input is given in another order",
+                          dict(base, site=site, cls=cls, perm=list(perm)), want, got)
+            return False
+        return True
+
+    if tk == "sel":
+        alph, mk = make_alphabet(2, ctx.seed)
+        ka3, ka2 = align.KmerAlphabet(alph, 3), align.KmerAlphabet(alph, 2)
+        km = [5, 0, 3, 6]
+        for perm_name in ("none", "freq_cyc", "random"):
+            sels = {"MincodeSelector": align.MincodeSelector(ka3, 2, perm_impl(perm_name, ka3, 2, 3, 8, ctx.seed)),
+                    "SyncmerSelector": align.SyncmerSelector(alph, 3, 2, perm_impl(perm_name, ka2, 2, 2, 4, ctx.seed), offset=(0,)),
+                    "CachedSyncmerSelector": align.CachedSyncmerSelector(alph, 3, 2, perm_impl(perm_name, ka2, 2, 2, 4, ctx.seed), offset=(0,))}
+            for name, s in sels.items():
+                p0, k0 = s.select_from_kmers(np.array(km))
+                chosen = set(np.asarray(p0).tolist())
+                for p in itertools.permutations(range(4)):
+                    if not ctx.journal(dict(base, site=name, perm=list(p), perm_name=perm_name)):
+                        continue
+                    arr = np.array([km[i] for i in p])
+                    pp, kk = s.select_from_kmers(arr)
+                    want = sorted((i, km[p[i]]) for i in range(4) if p[i] in chosen)
+                    got = sorted(zip(np.asarray(pp).tolist(), np.asarray(kk).tolist()))
+                    judge(name + ".select_from_kmers", "kmers_not_required_to_overlap+perm_" + perm_name, p, want, got)
+            for offs in ((0, -1), (-1, 0), (1, 0), (0, 1)):
+                a = align.SyncmerSelector(alph, 3, 2, offset=offs).select(mk(ALIAS_REFS[0]))
+                b = align.SyncmerSelector(alph, 3, 2, offset=tuple(sorted(o % 2 for o in offs))).select(mk(ALIAS_REFS[0]))
+                judge("SyncmerSelector.__init__", "offset_order", offs, _tolist(b), _tolist(a))
+        return
+    env = Env(2, ctx.seed, 2, sp)
+    T, kw, cn = table_class(tk), nb_kw(tk), cls_name(tk)
+    refs = [(0, 1, 1, 0, 1, 0, 0, 0), (1, 1, 0, 0, 1, 0), (0, 1, 0, 1, 1)]
+    ids = [7, 3, 2**31]
+    masks = [(2,), (), (4,)]
+    qseqs = [env.seq(c) for c in all_seqs(2, 3, 4)]
+    ka = env.kalph
+    N = env.N
+
+    def observe(t):
+        return [sorted(map(tuple, _entries(t, N))), [_ms(t.match(q).tolist()) for q in qseqs]]
+
+    spkw = {"spacing": env.sparg} if sp else {}
+
+    def fs(p):
+        return T.from_sequences(2, [env.seq(refs[i]) for i in p], ref_ids=[ids[i] for i in p],
+                                ignore_masks=[mask_array(len(refs[i]), masks[i]) if masks[i] else None for i in p], **spkw, **kw)
+    kms = [np.array(env.kmers(r), dtype=np.int64) for r in refs]
+
+    def fk(p):
+        return T.from_kmers(ka, [kms[i] for i in p], ref_ids=[ids[i] for i in p], **kw)
+
+    def fsel(p):
+        return T.from_kmer_selection(ka, [np.arange(len(kms[i]), dtype=np.uint32)[::2].copy() for i in p], [kms[i][::2].copy() for i in p],
+                                     ref_ids=[ids[i] for i in p], **kw)
+
+    def ft(p):
+        nb = {} if tk == "K" else {"n_buckets": 5}
+        tabs = [T.from_kmers(ka, [kms[i]], ref_ids=[ids[i]], **nb) for i in range(3)]
+        return T.from_tables([tabs[i] for i in p])
+    for site, fn in (("from_sequences", fs), ("from_kmers", fk), ("from_kmer_selection", fsel), ("from_tables", ft)):
+        want = observe(fn((0, 1, 2)))
+        for p in itertools.permutations(range(3)):
+            if ctx.journal(dict(base, site=site, perm=list(p))):
+                judge("%s.%s" % (cn, site), "reference_order", p, want, observe(fn(p)))
+    pairs = [(8, kms[0][0]), (2, kms[0][1]), (5, kms[0][2]), (2, kms[0][3])]
+    t0 = fk((0, 1, 2))
+
+    def sel_one(p):
+        return T.from_kmer_selection(ka, [np.array([pairs[i][0] for i in p], dtype=np.uint32)], [np.array([pairs[i][1] for i in p], dtype=np.int64)], **kw)
+    want_sel = observe(sel_one((0, 1, 2, 3)))
+    want_mks = _ms(t0.match_kmer_selection(np.array([x[0] for x in pairs], dtype=np.uint32), np.array([x[1] for x in pairs])).tolist())
+    want_cnt = t0.count(np.array([x[1] for x in pairs])).tolist()
+    for p in itertools.permutations(range(4)):
+        if not ctx.journal(dict(base, site="selection_pairs", perm=list(p))):
+            continue
+        judge(cn + ".from_kmer_selection", "pair_order", p, want_sel, observe(sel_one(p)))
+        got = _ms(t0.match_kmer_selection(np.array([pairs[i][0] for i in p], dtype=np.uint32), np.array([pairs[i][1] for i in p])).tolist())
+        judge(cn + ".match_kmer_selection", "pair_order", p, want_mks, got)
+        judge(cn + ".count", "kmer_order", p, [want_cnt[i] for i in p], t0.count(np.array([pairs[i][1] for i in p])).tolist())
+    if tk == "K":
+        d = {1: [(7, 0), (3, 4), (7, 5)], 3: [(3, 1)], 0: [(2, 9), (2, 2)]}
+        keys = list(d)
+        want = observe(T.from_positions(ka, {c: np.array(d[c], dtype=np.uint32) for c in keys}))
+        for p in itertools.permutations(range(3)):
+            for r in itertools.permutations(range(3)):
+                if not ctx.journal(dict(base, site="from_positions", perm=list(p), rows=list(r))):
+                    continue
+                dd = {}
+                for i in p:
+                    c = keys[i]
+                    rowsl = [d[c][j] for j in r] if len(d[c]) == 3 else d[c][::-1] if r[0] else d[c]
+                    dd[c] = np.array(rowsl, dtype=np.uint32)
+                judge(cn + ".from_positions", "dict_key_and_row_order", p + r, want, observe(T.from_positions(ka, dd)))
+    # match_table is symmetric up to the column swap, with and without a (symmetric) rule
+    rule, _ = make_rule(Env(2, ctx.seed, 2, None), "offdiag", 0, 1)
+    nb = {} if tk == "K" else {"n_buckets": 5}
+    a, b = T.from_kmers(ka, [kms[0]], ref_ids=[1], **nb), T.from_kmers(ka, [kms[1], kms[2]], ref_ids=[2, 3], **nb)
+    for r in (None, rule):
+        x = sorted(map(tuple, a.match_table(b, similarity_rule=r).tolist()))
+        y = sorted((c2, d2, a2, b2) for a2, b2, c2, d2 in b.match_table(a, similarity_rule=r).tolist())
+        judge(cn + ".match_table", "self_argument_swapped" + ("+similarity_rule" if r else ""), (1, 0), x, y)
+    ctx.sample(dict(base, site="from_positions", perm=[2, 0, 1]))
+
+
+def replay_order(case, ctx):
+    run_order({"kind": "order", "tk": case["tk"], "sp": case["sp"]}, ctx)
+
+
+SHARD_SOURCES.append(order_shards)
+RUNNERS["order"] = run_order
+REPLAYERS["order"] = replay_order
